@@ -227,6 +227,14 @@ def r06_6(chk: Check):
     chk.ob("R06.6", ff.where(), "the two velocities are the roots of T-(vw) = TMaxLowT and T+(vw) = TMaxHighT", okc, detail, key="fastest|roots")
     early = [r for r in rets if n(r.value) == "self.vJ"]
     chk.ob("R06.6", ff.where(), "vJ is returned when both temperatures stay inside their ranges just below vJ", len(early) == 1, key="fastest|vJ")
+    other = [r for r in rets if r is not last and r not in early]
+    chk.ob("R06.6", ff.where(), "fastestDeflag has no other exit: a velocity limited by one phase range is never returned before the other range was examined",
+           not other, "; ".join(f"line {r.lineno}: return {n(r.value)}" for r in other), key="fastest|exits")
+    for q in ("fastestDeflag", "slowestDeton"):
+        fq = S.func(f"{HY}.{q}")
+        conf = SideTyper(fq.node).conflicts()
+        chk.ob("R06.6", fq.where(), f"{q}: T- is compared with the low-T range and T+ with the high-T range", not conf,
+               "; ".join(f"line {c.lineno}: {m}" for c, m in conf)[:300], key=f"sides|{q}")
     fe = S.func("equationOfMotion:EOM.findWallVelocityDeflagrationHybrid")
     chk.touch(fe.name)
     d = [st for st in own_nodes(fe.node) if isinstance(st, ast.Assign) and n(st.targets[0]) in ("vmax", "vmin")]
@@ -255,7 +263,7 @@ def r06_6(chk: Check):
     roots = calls_in(fmn.node, "root_scalar")
     ok = len(roots) == 1 and n(roots[0].args[0]) == "strongestshockTnucl" and n(kwarg(roots[0], "bracket")).replace(" ", "") == "(self.vBracketLow,self.vJ)"
     chk.ob("R06.6", fmn.where(), "minVelocity is the root of strongestShock(vw) - Tnucl on (vBracketLow, vJ); 0 when there is none", ok, key="minVelocity")
-    chk.floor("R06.6", 10)
+    chk.floor("R06.6", 13)
 
 
 def rules(chk: Check) -> None:
